@@ -40,6 +40,10 @@ def sig_base(case, exp):
             d["style_kw"] = "+".join(sorted(case["style_kw"]))
     else:
         d.update(cls=case.get("cls", "TextR"), mode=case.get("mode", "plain"))
+        if case.get("padcls"):
+            d["padcls"] = case["padcls"]
+    if case.get("stdout_size"):
+        d["stdout"] = "not-the-terminal"
     return d
 
 
@@ -267,6 +271,59 @@ def build_cases(tier):
                     cases.append(dict(part="V", api="new", cls=cls, mode=mode, frames=frames, loops=loops, cache=cache,
                                       size=size, pad=pad, term=term, row0=row0, isatty=True, check_size=check,
                                       allow_scroll=allow, animate=animate))
+    # ---- a renderable whose render data fixes a per-operation size for an iteration that differs from its
+    # nominal render_size (documented extension point `_get_render_data_`): the animation is laid out, validated
+    # and its cursor moved for the size in the render data
+    for size, isz in (((3, 2), (2, 1)), ((3, 2), (3, 3)), ((2, 2), (1, 3)), ((1, 1), (2, 2)), ((2, 3), (2, 2))):
+        for pad in (("exact", 0, 0, 0, 0, " "), ("exact", 1, 1, 1, 2, " "), ("aligned", 0, -2, 1, 1, " "),
+                    ("aligned", 5, 4, 2, 0, "")):
+            for frames, loops, cache, animate in ((2, 1, False, True), (3, 2, True, True), (3, 2, False, True),
+                                                  (2, 1, False, False)):
+                for row0, isatty in itertools.product(range(5), (True, False)):
+                    if quick and not isatty and row0 not in (0, 4):
+                        continue
+                    cases.append(dict(part="T", api="new", cls="FitR", mode="plain", frames=frames, loops=loops,
+                                      cache=cache, size=size, iter_size=isz, pad=pad, term=(6, 5), row0=row0,
+                                      isatty=isatty, animate=animate, allow_scroll=True))
+    # subclasses of AlignedPadding (trivial; overriding the `_get_exact_dimensions_` hook) with relative dimensions
+    for padcls, (cls, mode), size in itertools.product(("trivial", "thirds"), NEW_CLS, [(2, 2), (1, 1), (3, 1)]):
+        for pad in (("aligned", 0, -2, 1, 1, " "), ("aligned", -1, 4, 0, 2, " "), ("aligned", 5, -1, 2, 0, ""),
+                    ("aligned", 6, 4, 1, 1, " "), ("aligned", -9, -9, 1, 1, " ")):
+            for frames, loops, cache in ((1, 1, False), (2, 2, True), (3, 1, False)):
+                for row0 in (0, 2, 4):
+                    cases.append(dict(part="T", api="new", cls=cls, mode=mode, frames=frames, loops=loops,
+                                      cache=cache, size=size, pad=pad, padcls=padcls, term=(6, 5), row0=row0,
+                                      isatty=True, allow_scroll=True))
+    # ---- part S: standard output is NOT the active terminal (redirected / another device): every size rule and
+    # every terminal-relative dimension refers to the active terminal, whatever fd 1 / COLUMNS x LINES say
+    for so_size, term in itertools.product([(80, 24), (3, 2), (12, 9)], [(6, 5)] if quick else [(6, 5), (8, 7)]):
+        cols, rows = term
+        for isatty in (False, True):
+            for (cls, mode) in (NEW_CLS[:1] if quick else NEW_CLS):
+                for size in ((1, 1), (2, 2), (cols, 1), (cols + 1, 1), (1, rows), (1, rows + 1), (so_size[0], 1)):
+                    for pad in (("aligned", 0, -2, 1, 1, " "), ("aligned", -1, -1, 2, 2, " "), ("exact", 0, 0, 0, 0, " "),
+                                ("exact", 1, 0, 1, 1, " "), ("aligned", cols, rows, 0, 0, " ")):
+                        for frames, check, allow in ((1, True, False), (1, True, True), (1, False, False),
+                                                     (2, True, False)):
+                            for row0 in (0, rows - 1):
+                                cases.append(dict(part="S", api="new", cls=cls, mode=mode, frames=frames, loops=1,
+                                                  cache=False, size=size, pad=pad, term=term, row0=row0,
+                                                  isatty=isatty, check_size=check, allow_scroll=allow,
+                                                  stdout_size=so_size))
+            for style, ident, method in (OLD_COMBOS[:2] if quick else OLD_COMBOS[:3] + OLD_COMBOS[7:8]):
+                for size in ((1, 1), (2, 2), (cols, 2), (cols + 1, 1), (1, rows), (1, rows + 1)):
+                    for fmt in ((None, 0, None, -2), ("<", -1, "_", -1), (None, cols, None, rows), (None, cols + 1, None, 1),
+                                (None, 1, None, rows + 1)):
+                        for frames, check, scroll in ((1, True, False), (1, True, True), (1, False, False),
+                                                      (2, True, False)):
+                            cases.append(dict(part="S", api="old", style=style, ident=ident, method=method,
+                                              frames=frames, repeat=1, cached=False, size=size, fmt=fmt, term=term,
+                                              row0=0, isatty=isatty, check_size=check, scroll=scroll,
+                                              stdout_size=so_size))
+        for style, ident, method in OLD_COMBOS[:2]:
+            cases.append(dict(part="S", api="old", style=style, ident=ident, method=method, frames=2, repeat=1,
+                              cached=False, size=(3, 3), dyn=True, fmt=(None, 0, None, -2), term=term, row0=0,
+                              isatty=False, stdout_size=so_size))
     # ---- part V: new API validation table
     vt = (4, 3)
     for w, h in itertools.product(range(1, vt[0] + 2), range(1, vt[1] + 3)):
@@ -392,7 +449,8 @@ def run(ctx):
                                                      V="new API validation table", O="old API placement",
                                                      W="old API validation table",
                                                      H="old API histories: draw, resize, draw (dynamic size)",
-                                                     K="old API style-specific draw() parameters"),
+                                                     K="old API style-specific draw() parameters",
+                                                     S="stdout is not the active terminal (both APIs)"),
                         terminals=sorted({tuple(c["term"]) for c in cases}),
                         old_api_combos=len(OLD_COMBOS) + len(KITTY_GATE))
     ctx.assumptions += ["vterm (vlib/vterm.py, DESIGN appendix A) is the terminal, the tty applies ONLCR",
